@@ -205,7 +205,7 @@ func gen(r *rand.Rand, tier string) []string {
 		}
 	}
 
-	// (D) thorough: every file of up to 4 entries over the tags {a, b, none} x every chosencases subset of
+	// (D) thorough: every file of up to 5 entries over the tags {a, b, none} x every chosencases subset of
 	// {a, b, "", zz} x limit 0..4 x passes 0..2, every format
 	if thorough {
 		alpha := []string{"a", "b", ""}
@@ -220,7 +220,7 @@ func gen(r *rand.Rand, tier string) []string {
 				rec(append(cur, a), n-1)
 			}
 		}
-		for n := 1; n <= 4; n++ {
+		for n := 1; n <= 5; n++ {
 			rec(nil, n)
 		}
 		calpha := []string{"a", "b", "", "zz"}
@@ -430,7 +430,7 @@ func main() {
 		Rule: "the same generated ammo source (uri file or inline uris, uripost, raw, http/json objects, http/json array; 3-4 layouts each: headers, blank lines, CRLF, " +
 			"missing final newline, pretty-printed / one-line JSON) through the real http provider with preload off and on, built by NewProvider or by the plugin registry from a config map: " +
 			"fixed files and the empty file x every subset of the tags {a,b,c} plus subsets matching nothing x limit 0..4 x passes 0..3; layouts x sources x routes on files with untagged entries; " +
-			"every cancellation point below the end of bounded cells; thorough: every file of <= 4 entries over {a,b,untagged} x every chosencases subset of {a,b,\"\",zz} x limit 0..4 x passes 0..2; " +
+			"every cancellation point below the end of bounded cells; thorough: every file of <= 5 entries over {a,b,untagged} x every chosencases subset of {a,b,\"\",zz} x limit 0..4 x passes 0..2; " +
 			"plus random files (tags from {a,b,c,ab,B,untagged,'a b'}), random chosencases subsets (incl. nothing-matching, duplicates) and bounds; class = format(source) / filter shape / bound shape",
 	})
 }
